@@ -51,6 +51,39 @@ def run (max : Nat) : Bytes → Bool → List Bytes → List Out
       let r := procPart max acc sync c
       r.1 ++ run max r.2.1 r.2.2 cs
 
+/-- the same reader, with its outputs grouped by the chunk during whose processing they were
+    produced (`receive_message()` returns a message while it is working on the chunk - or on the
+    residual of the chunk - that carried the message's newline) -/
+def runChunks (max : Nat) : Bytes → Bool → List Bytes → List (Bytes × List Out)
+  | _, _, [] => []
+  | acc, sync, c :: cs =>
+      let r := procPart max acc sync c
+      (c, r.1) :: runChunks max r.2.1 r.2.2 cs
+
+/-- what can happen to the reader between two chunks: nothing, or the pending
+    `receive_message()` call is cancelled while it waits for data and a new call is made.
+    (Outside the property as stated - the text does not speak about cancellation; modelled only
+    to document what the code does, see `cancel_*` in Props.lean.) -/
+inductive Ev where
+  | chunk (c : Bytes)
+  | cancel
+  deriving Repr, DecidableEq
+
+/-- `parts` / `buffer_size` are locals of `receive_message`: a cancelled call forgets them;
+    `synchronizing` (and `residual`, empty while the call waits) live on the framer -/
+def runEv (max : Nat) : Bytes → Bool → List Ev → List Out
+  | _, _, [] => []
+  | acc, sync, .chunk c :: es =>
+      let r := procPart max acc sync c
+      r.1 ++ runEv max r.2.1 r.2.2 es
+  | _, sync, .cancel :: es => runEv max [] sync es
+
+/-- state `(parts joined, synchronizing)` of the waiting reader after the chunks `cs` -/
+def stateAfter (max : Nat) : Bytes → Bool → List Bytes → Bytes × Bool
+  | acc, sync, [] => (acc, sync)
+  | acc, sync, c :: cs =>
+      let r := procPart max acc sync c
+      stateAfter max r.2.1 r.2.2 cs
 
 inductive Tok where
   | byte (b : UInt8)   -- includes newline
